@@ -417,6 +417,33 @@ func runC18(r *Run) {
 	}
 
 	// access-list conversions (the Accesses ↔ AccessList leg of the field maps): every tuple gets its own key slice
+	r.Rule("R7", "PATH.transaction-from-data: MsgEthereumTx.AsTransaction builds the Ethereum transaction from the message's own Data on every path — each non-nil result is preceded by UnpackTxData(msg.Data) and derives from it (NewTx(txData.AsEthereumData())); nothing else (the Hash or From strings of the envelope, a lookup keyed by them) selects the transaction that is returned")
+	if at, ok := P.FnOK("(" + evmTypes + ".MsgEthereumTx).AsTransaction"); ok {
+		isUnpack := isCallMatching(func(ci CallInfo) bool {
+			return ci.Name == "UnpackTxData" && len(callArgs(ci.Instr)) > 0 && backSlice(callArgs(ci.Instr)[0]).HasField("MsgEthereumTx", "Data")
+		})
+		okPath, okFlow := true, true
+		var wit []string
+		eachInstr(at, func(in ssa.Instruction) {
+			ret, ok := in.(*ssa.Return)
+			if !ok || len(ret.Results) != 1 || isNilConst(ret.Results[0]) {
+				return
+			}
+			isThis := func(x ssa.Instruction) bool { return x == in }
+			if w := (PathQuery{Fn: at, Block: isUnpack, Target: isThis}).Search(); w != nil {
+				okPath = false
+				wit = P.witness(w)
+			}
+			sl := backSlice(ret.Results[0])
+			if !sl.HasCall(func(g CallInfo) bool { return g.Name == "UnpackTxData" }) || sl.HasField("MsgEthereumTx", "Hash") || sl.HasField("MsgEthereumTx", "From") {
+				okFlow = false
+			}
+		})
+		r.Check(okPath && okFlow, "R7", fnID(at)+"#from-data-on-every-path", P.Pos(fnPos(at)), "every non-nil result = NewTx(UnpackTxData(msg.Data).AsEthereumData())",
+			"AsTransaction can return a transaction that was not built from the message's Data (a result selected by the envelope's Hash/From strings or a memo keyed by them): hash, sender and every field read afterwards belong to another transaction than the one the message carries", wit...)
+	} else {
+		r.Bad("R7", "anchor/MsgEthereumTx.AsTransaction", "", "not found")
+	}
 	r.Rule("R6", "PATH+FLOW.sender-recovered: MsgEthereumTx.GetSender returns an address only after an error-checked signer.Sender(msg.AsTransaction()) on every success path, the returned address is that call's result, and the signer is built from the chainID parameter; the From field (a cache that anyone assembling the envelope can fill) is never the source of the returned sender. GetSigners returns that sender")
 	if gs, ok := P.FnOK("(*" + evmTypes + ".MsgEthereumTx).GetSender"); ok {
 		isSender := isCallMatching(func(ci CallInfo) bool { return ci.Name == "Sender" && ci.Invoke })
